@@ -395,6 +395,7 @@ pub trait Fam {
     ) -> Result<(), Self::Err>;
 
     fn header_decode(bytes: &[u8]) -> Result<HdrInfo, Self::Err>;
+    async fn header_decode_async<R: AsyncRead + Unpin>(r: &mut R) -> Result<HdrInfo, Self::Err>;
     fn header_new_with(byte: u8, rl: u32) -> Result<HdrInfo, Self::Err>;
     fn hdr_rl(h: &Self::Hdr) -> u32;
 
